@@ -5,7 +5,7 @@
    KF-D7 / KF-D20); what is proved are leaf instances of E1 and the order-freeness of the
    specification's language.  The property is otherwise carried by the correspondence check
    (exhaustive small ASTs x inputs, random stream) against the extracted spec_is_match. *)
-From RX Require Import Base.Prelude Base.InvList Spec.Syntax Spec.Sem Model.Op Model.Engine Proofs.LeafFacts.
+From RX Require Import Base.Prelude Base.InvList Spec.Syntax Spec.Sem Model.Op Model.Engine Proofs.LeafFacts Model.Matcher Model.Api Proofs.EngineFacts Proofs.EngineCorollaries.
 
 (* a literal character is the specification's RChar, at every position, in every context *)
 Theorem C01_literal_partial :
@@ -39,7 +39,26 @@ Example C01_ex :
                 (RSeq [RChar 98; RQuant (RChar 99) 1 None true]) = true.
 Proof. vm_compute. reflexivity. Qed.
 
+(* E1 + E5 on the fragment: for an unoptimised program whose operation is built from anchors,
+   literals, classes, captures, alternation, sequence, fixed-length greedy repeats and unambiguous
+   repeats (no back-reference, no variable-length repeat), ReMatcher::matches answers true exactly
+   when the pure list-of-successes function has a match at some start position - for every input *)
+Theorem C01_fragment_is_match_partial :
+  forall prog input i s,
+    simple input (p_case prog) (p_multi prog) (p_hasbackrefs prog) (p_maxparens prog) (p_op prog) ->
+    (p_hasbol prog = false /\ p_minlen prog = 0%N /\ p_prefix prog = None /\ p_icc prog = None /\ p_pre prog = []) ->
+    i <= length input -> length (sb s) = length (eb s) ->
+    ((exists s', matches prog input i s = MTrue s')
+     <-> (exists m, i <= m <= length input /\ Rop input (p_case prog) (p_multi prog) (p_op prog) m <> [])).
+Proof. intros prog input i s H1 H2. exact (fragment_is_match_iff prog input H1 H2 i s). Qed.
+
+Example C01_fragment_nonvacuous :
+  (forall input, simple input false false false 1 (p_op ex_prog))
+  /\ exists s', matches ex_prog [122; 98; 100; 100; 120]%N 0 st0 = MTrue s'.
+Proof. split; [exact ex_simple | exact ex_runs]. Qed.
+
 Print Assumptions C01_literal_partial.
 Print Assumptions C01_class_partial.
 Print Assumptions C01_alternation_is_union.
 Print Assumptions C01_order_free_spec.
+Print Assumptions C01_fragment_is_match_partial.
